@@ -192,6 +192,12 @@ namespace igris
                 uint16_t len;
                 load(len);
 
+                // the view never extends beyond the end of the input
+                size_t avail = (size_t)((const char *)end() -
+                                        (const char *)pointer());
+                if (len > avail)
+                    len = (uint16_t)avail;
+
                 buf.ref = igris::buffer((char *)pointer(), len);
 
                 skip(len);
@@ -241,13 +247,26 @@ namespace igris
             const char *ptr = nullptr;
             const char *_end = nullptr;
 
+            // never reads beyond _end: like deserialize_buffer_storage::load
+            // the read is clamped to the remaining bytes; the part of dat
+            // that the input does not cover is zero-filled
             void load_data(char *dat, uint16_t size) override
             {
-                memcpy(dat, ptr, size);
-                ptr += size;
+                size_t avail = (size_t)(_end - ptr);
+                size_t len = size < avail ? size : avail;
+                if (len)
+                    memcpy(dat, ptr, len);
+                if (size - len)
+                    memset(dat + len, 0, size - len);
+                ptr += len;
             }
 
-            void skip(int size) override { ptr += size; }
+            void skip(int size) override
+            {
+                if (size > _end - ptr)
+                    size = (int)(_end - ptr);
+                ptr += size;
+            }
 
             void *pointer() override { return (void *)ptr; }
             const void *end() override { return _end; }
